@@ -599,6 +599,7 @@ func genScenario(rng *rand.Rand, kind string) Scenario {
 		sc.Reopen = "all"
 	}
 	sc.Names = make([]string, n+1)
+	var shared []int // two blobs that carry the same name (file store)
 	sc.Annot = make([]bool, n+1)
 	for k := 1; k <= n; k++ {
 		sc.Annot[k] = kind == "oci" && rng.Intn(2) == 0
@@ -607,6 +608,20 @@ func genScenario(rng *rand.Rand, kind string) Scenario {
 		for k := 1; k <= n; k++ {
 			if nodes[k].Kind == "blob" && rng.Intn(2) == 0 {
 				sc.Names[k] = fmt.Sprintf("file%d.bin", k)
+			}
+		}
+		if rng.Intn(3) == 0 {
+			// two different blobs under one name: the name belongs to the first one pushed
+			var bl []int
+			for k := 1; k <= n; k++ {
+				if nodes[k].Kind == "blob" && !nodes[k].Empty {
+					bl = append(bl, k)
+				}
+			}
+			if len(bl) >= 2 {
+				rng.Shuffle(len(bl), func(i, j int) { bl[i], bl[j] = bl[j], bl[i] })
+				sc.Names[bl[0]], sc.Names[bl[1]] = "shared.bin", "shared.bin"
+				shared = bl[:2]
 			}
 		}
 	}
@@ -712,6 +727,18 @@ func genScenario(rng *rand.Rand, kind string) Scenario {
 			if rng.Intn(2) == 0 {
 				sc.Par = append(sc.Par, Op{Op: "tag", N: absent, Ref: hotref})
 			}
+			return sc
+		}
+		if len(shared) == 2 {
+			// two different blobs pushed under one name at once: exactly one of them gets the name
+			var ops []Op
+			for _, o := range sc.Ops {
+				if !(o.Op == "push" && (o.N == shared[0] || o.N == shared[1])) {
+					ops = append(ops, o)
+				}
+			}
+			sc.Ops = ops
+			sc.Par = []Op{{Op: "push", N: shared[0]}, {Op: "push", N: shared[1]}}
 			return sc
 		}
 		if kind == "oci" && rng.Intn(4) == 0 {
